@@ -94,6 +94,9 @@ FUNCS = [
     dict(name='IPNetwork_key', tie='NV.Tie.net_key', prop='C12', file='ip/__init__.py', cls='IPNetwork', func='key', kind='net', params=[], ret='tuple3'),
     dict(name='IPRange_first', tie='NV.Tie.rng_first', prop='C10', file='ip/__init__.py', cls='IPRange', func='first', kind='rng', params=[], ret='int'),
     dict(name='IPRange_last', tie='NV.Tie.rng_last', prop='C10', file='ip/__init__.py', cls='IPRange', func='last', kind='rng', params=[], ret='int'),
+    dict(name='IPRange_size', tie='NV.Tie.rng_size', prop='C10', file='ip/__init__.py', cls='IPListMixin', func='size', kind='rng', params=[], ret='int', self_cls='IPRange'),
+    dict(name='IPNetwork_len', tie='NV.Tie.net_len', prop='C10', file='ip/__init__.py', cls='IPListMixin', func='__len__', kind='net', params=[], ret='int', self_cls='IPNetwork'),
+    dict(name='IPRange_len', tie='NV.Tie.rng_len', prop='C10', file='ip/__init__.py', cls='IPListMixin', func='__len__', kind='rng', params=[], ret='int', self_cls='IPRange'),
     dict(name='IPRange_key', tie='NV.Tie.rng_key', prop='C12', file='ip/__init__.py', cls='IPRange', func='key', kind='rng', params=[], ret='tuple3'),
     dict(name='IPAddress_set_value', tie='NV.Tie.addr_set_value', prop='C14', file='ip/__init__.py', cls='BaseIP', func='_set_value', kind='addr', params=[('value', 'int')], ret='self'),
     dict(name='IPNetwork_set_value', tie='NV.Tie.net_set_value', prop='C02', file='ip/__init__.py', cls='BaseIP', func='_set_value', kind='net', params=[('value', 'int')], ret='self'),
@@ -120,6 +123,8 @@ FUNCS = [
     # the halving loop of cidr_partition (arguments already IPNetwork objects: `target = IPNetwork(target)` is the identity)
     dict(name='cidr_partition', tie='NV.Tie.cidr_partition_eq', prop='C09', file='ip/__init__.py', cls=None, func='cidr_partition', kind=None,
          params=[('target', 'obj:net'), ('exclude', 'obj:net')], ret='lists3', fuel='(width exclude_ver + 1)'),
+    dict(name='cidr_exclude', tie='NV.Tie.cidr_exclude_eq', prop='C09', file='ip/__init__.py', cls=None, func='cidr_exclude', kind=None,
+         params=[('target', 'obj:net'), ('exclude', 'obj:net')], ret='list3'),
     dict(name='iprange_to_cidrs', tie='NV.Tie.iprange_to_cidrs_eq', prop='C05', file='ip/__init__.py', cls=None, func='iprange_to_cidrs', kind=None,
          params=[('start', 'obj:net'), ('end', 'obj:net')], ret='list3'),
     # `x in y`: one translation per operand class (isinstance tests are decided by the declared class)
@@ -333,6 +338,8 @@ def ival(ctx, e):
     if isinstance(e, ast.Name):
         if e.id in ctx.bools:
             raise Untranslatable('bool variable used as int')
+        if e.id == '_sys_maxint':
+            return 'sysmaxint'          # sys.maxsize: a parameter of the translation (platform dependent)
         return nm(e.id)
     it = intrinsic(ctx, e)
     if it is not None:
@@ -504,7 +511,9 @@ def lval(ctx, e):
     if isinstance(e, ast.List):
         return '[' + ', '.join(obj_tuple(ctx, x) for x in e.elts) + ']'
     if isinstance(e, ast.Name) and ctx.vartypes.get(e.id) == 'list3':
-        return e.id
+        return nm(e.id)
+    if isinstance(e, ast.BinOp) and isinstance(e.op, ast.Add):
+        return '(%s ++ %s)' % (lval(ctx, e.left), lval(ctx, e.right))
     if isinstance(e, ast.Subscript) and isinstance(e.slice, ast.Slice) and e.slice.lower is None and e.slice.upper is None \
             and isinstance(e.slice.step, ast.UnaryOp) and isinstance(e.slice.step.op, ast.USub) \
             and isinstance(e.slice.step.operand, ast.Constant) and e.slice.step.operand.value == 1:
@@ -668,6 +677,20 @@ def block(ctx, stmts, ind, loop=None):
         if isinstance(s, ast.AugAssign) and isinstance(tgt, ast.Name) and ctx.vartypes.get(tgt.id) == 'list3' \
                 and isinstance(s.op, ast.Add):
             return '%slet %s : List (Int × Int × Int) := %s ++ %s\n%s' % (pad, tgt.id, tgt.id, lval(ctx, s.value), block(ctx, rest, ind, loop))
+        if isinstance(tgt, ast.Tuple) and len(tgt.elts) == 3 and all(isinstance(t, ast.Name) for t in tgt.elts) \
+                and isinstance(val, ast.Call) and isinstance(val.func, ast.Name) and not val.keywords:
+            for sp in ctx.table.values():
+                if sp['cls'] is None and sp['func'] == val.func.id and sp['ret'] == 'lists3' and not sp.get('_raises') \
+                        and len(sp['params']) == len(val.args):
+                    args = []
+                    for a in val.args:
+                        args += net_fields(ctx, a)
+                    call = '(%s %s)' % (sp['name'], ' '.join(args))
+                    out = ''
+                    for t, pj in zip(tgt.elts, ['.1', '.2.1', '.2.2']):
+                        ctx.vartypes[t.id] = 'list3'
+                        out += '%slet %s : List (Int × Int × Int) := %s%s\n' % (pad, nm(t.id), call, pj)
+                    return out + block(ctx, rest, ind, loop)
         if not isinstance(tgt, ast.Name):
             raise Untranslatable('assignment target')
         v = tgt.id
@@ -957,7 +980,7 @@ def has_raise(fn, ctx_table, spec):
 
 
 def param_binders(spec):
-    out = []
+    out = ['(sysmaxint : Int)'] if spec.get('_sysmax') else []
     for p, t in spec['params']:
         if t.startswith('obj:'):
             out += ['(%s_%s : %s)' % (p, f, 'Nat' if f == 'ver' else 'Int') for f in OBJ_FIELDS[t[4:]]]
@@ -971,7 +994,7 @@ def param_binders(spec):
 
 
 def param_names(spec):
-    out = []
+    out = ['sysmaxint'] if spec.get('_sysmax') else []
     for p, t in spec['params']:
         if t.startswith('obj:'):
             out += ['%s_%s' % (p, f) for f in OBJ_FIELDS[t[4:]]]
@@ -1024,6 +1047,7 @@ def translate_all(root=None, funcs=None):
             fn, text = source_of(spec, root)
             ctx = Ctx(spec, table)
             spec['_raises'] = has_raise(fn, table, spec) or calls_raising(fn, ctx)
+            spec['_sysmax'] = any(isinstance(n, ast.Name) and n.id == '_sys_maxint' for n in ast.walk(fn))
             ctx.spec = spec
             ctx.fn = fn
             ctx.table = dict(table)
